@@ -810,6 +810,23 @@ Fixpoint c_run (cfg : ccfg) (s : cstate) (evs : list c_event) : option cstate :=
   | e :: evs' => match c_step cfg s e with Some s' => c_run cfg s' evs' | None => None end
   end.
 
+(* Which steps of the client machine remain possible once inputClosed has been signalled: Go's select takes a
+   ready case, never "default", and Awaitable.Wait returns at once when the signal is already raised:
+     CRetryElapsed   no: inputClosed.Wait(ForwarderRetryInterval) returns true immediately
+     CRecoveryDone   no: select { inputClosed | leftover | default } has a ready case
+     CReconnect      environment: no SIGUSR1 and no max-duration expiry during the shutdown
+     CTake           only while chunks are left in the closed output channel (budget w)
+     CStop           the signal is raised once *)
+Definition post_stop_ok (w : Z) (e : c_event) : bool :=
+  match e with
+  | CRetryElapsed | CRecoveryDone | CReconnect | CStop => false
+  | CTake _ => 0 <? w
+  | _ => true
+  end.
+
+Definition budget_after (w : Z) (e : c_event) : Z := match e with CTake _ => w - 1 | _ => w end.
+
+
 (* chunks the client holds *)
 Definition c_holdings (s : cstate) : Z :=
   zlen (c_left s) + len_opt (c_last s) + zlen (c_achan s) + zlen (c_pmap s).
@@ -1129,6 +1146,16 @@ Definition bm_text (m : bmetrics) : bytes :=
 Definition cm_text (m : cmetrics) : bytes :=
   zlist [k_attempts m; k_fwd_n m; k_fwd_b m; k_ack_n m; k_ack_b m; k_opened m; k_gleft m; k_gpack m].
 
+(* do the client's steps that follow the stop signal respect post_stop_ok?  (ties the assumption used for the
+   termination argument of C18 to the traces of the real client) *)
+Fixpoint post_stop_check (stopped : bool) (evs : list sys_event) : bool :=
+  match evs with
+  | [] => true
+  | SStop :: r => post_stop_check true r
+  | SC ce :: r => (negb stopped || post_stop_ok 1 ce) && post_stop_check stopped r
+  | _ :: r => post_stop_check stopped r
+  end.
+
 Definition str_reject : bytes := [114;101;106;101;99;116]%N.
 
 Definition run_kind2 (c : case) : bytes :=
@@ -1149,6 +1176,7 @@ Definition run_kind2 (c : case) : bytes :=
         str_ok ++ colon :: [98; 61]%N ++ bm_text (b_m (s_b s))
         ++ ch_semi :: [99; 61]%N ++ cm_text (c_m (s_c s))
         ++ ch_semi :: [102; 61]%N ++ zs (b_nfiles (s_b s))
+        ++ ch_semi :: [112; 115; 61]%N ++ zs (bool_Z (post_stop_check false evs))
       end
     end
   | _ => bad_case_output
